@@ -290,6 +290,10 @@ theorem inv3_step {fp : FdlParams} (hfp : FpOk fp) {g g' : G} (hI : Inv fp g) (h
     cases hev : g.m.lastEvents.peripheral with
     | none => exact ⟨h3.slot, h3.await⟩
     | some he =>
+      cases hsv : g.staleEv with
+      | true => simp only [↓reduceIte]; exact ⟨h3.slot, h3.await⟩
+      | false =>
+      simp only [Bool.false_eq_true, ↓reduceIte]
       refine ⟨?_, ?_⟩
       · intro j q hq
         show J3 (g.upd he.index (sgTake he.ev) j) q
